@@ -37,6 +37,9 @@ ASSUMPTIONS = ["str() of a sympy number denotes its value (Float: 15 significant
                "the four candidate trees are taken from the real run (string_to_expr with each flag combination, .evalf() when requested); what sympy returns for them is not modelled",
                "minimum node count is read off the property's mechanism ('four parse variants, minimum node count') and string_to_node's docstring (allow_eval = the kernS=False, evaluate=True option): the oracle on the real code is insensitive to the order of the variants, i.e. a pure reordering (different tie-breaking) is not a violation",
                "an integer label beyond the range of a double (>= 2^1024 - 2^970) is not a number for generator.is_float (float(<int>) raises OverflowError): model and in-basis oracle follow the code"]
+# tables whose committed version may stand in as a hand-written model when the translator cannot read the source;
+# value = the correspondence that then ties it to the code (common.prove / common.decide)
+FALLBACK = {'ToList': 'DecoratedNode.to_list / string_to_node on grammar formulas vs the Lean to_list and selection models', 'Shape': 'basis tables: labels_to_shape correspondence'}
 MODELLED = ["generator.py:DecoratedNode.__init__", "generator.py:DecoratedNode.to_list", "generator.py:DecoratedNode.count_nodes",
             "generator.py:DecoratedNode.is_unity", "generator.py:string_to_node", "generator.py:string_to_expr", "generator.py:labels_to_shape",
             "generator.py:is_float", "fit_single.py:fit_from_string", "fit_single.py:string_to_aifeyn", "generator.py:check_tree",
